@@ -141,13 +141,27 @@ impl Z for u64 {
         0
     }
 }
-impl Z for [u8; 3] {
-    const NAME: &'static str = "[u8;3]";
-    fn random(r: &mut Rng) -> [u8; 3] {
-        [r.byte() | 1, r.byte() | 2, r.byte() | 4]
+/// byte arrays of every small width: element sizes that are not a power of two (3, 5, 6, 7, 12, 17)
+/// divide no lane width evenly
+impl<const K: usize> Z for [u8; K] {
+    const NAME: &'static str = match K {
+        3 => "[u8;3]",
+        5 => "[u8;5]",
+        6 => "[u8;6]",
+        7 => "[u8;7]",
+        12 => "[u8;12]",
+        17 => "[u8;17]",
+        _ => "[u8;K]",
+    };
+    fn random(r: &mut Rng) -> [u8; K] {
+        let mut a = [0u8; K];
+        for (i, x) in a.iter_mut().enumerate() {
+            *x = r.byte() | (1 << (i % 8));
+        }
+        a
     }
-    fn zeroed() -> [u8; 3] {
-        [0; 3]
+    fn zeroed() -> [u8; K] {
+        [0; K]
     }
 }
 impl Z for Mark {
@@ -328,6 +342,11 @@ macro_rules! impl_zclen {
                     zero_case::<u8, N>(st, args.seed);
                     zero_case::<u64, N>(st, args.seed);
                     zero_case::<[u8; 3], N>(st, args.seed);
+                    zero_case::<[u8; 5], N>(st, args.seed);
+                    zero_case::<[u8; 6], N>(st, args.seed);
+                    zero_case::<[u8; 7], N>(st, args.seed);
+                    zero_case::<[u8; 12], N>(st, args.seed);
+                    zero_case::<[u8; 17], N>(st, args.seed);
                     zero_case::<Mark, N>(st, args.seed);
                     zero_case::<NonZeroU32, N>(st, args.seed);
                     zero_case::<GA<u8, U3>, N>(st, args.seed);
